@@ -1,4 +1,802 @@
-//! Bitfield histories, set operations, byte-level API, serde and arbitrary observations.
-use crate::runner::Ctx;
+//! Bitfield histories, set operations, byte-level API, serde and arbitrary observations
+//! (C11-C14, C18, C20).
+use crate::model::{bits_model, hex};
+use crate::rng::Rng;
+use crate::runner::{catch, Caught, Ctx};
+use smallvec::SmallVec;
+use ssz::{BitList, BitVector, BitVectorDynamic, Decode, Encode};
+use std::hash::{Hash, Hasher};
+use typenum::Unsigned;
 
-pub fn run(_ctx: &mut Ctx, _args: &[String]) {}
+/// Records what `Hash` feeds to the hasher.
+#[derive(Default)]
+struct Recorder(Vec<u64>);
+impl Hasher for Recorder {
+    fn finish(&self) -> u64 {
+        0
+    }
+    fn write(&mut self, bytes: &[u8]) {
+        for b in bytes {
+            self.0.push(*b as u64);
+        }
+    }
+    fn write_usize(&mut self, i: usize) {
+        self.0.push(i as u64);
+    }
+    fn write_u64(&mut self, i: u64) {
+        self.0.push(i);
+    }
+}
+
+/// The operations of `BitfieldOps.v`, uniformly over the three flavours.
+pub trait Flav: Sized + Clone + PartialEq + Hash + Encode + Decode {
+    fn name() -> String;
+    fn new_(n: usize) -> Result<Self, ()>;
+    fn set_(&mut self, i: usize, v: bool) -> Result<(), ()>;
+    fn shift_(&mut self, n: usize) -> Result<(), ()>;
+    fn diffi_(&mut self, o: &Self);
+    fn diff_(&self, o: &Self) -> Self;
+    fn union_(&self, o: &Self) -> Result<Self, ()>;
+    fn inter_(&self, o: &Self) -> Result<Self, ()>;
+    fn subset_(&self, o: &Self) -> bool;
+    fn from_bytes_(b: &[u8]) -> Result<Self, ()>;
+    fn into_bytes_(self) -> Vec<u8>;
+    fn observe(&self) -> (usize, String, usize, Option<usize>, bool, Vec<u8>);
+}
+
+macro_rules! common_flav {
+    () => {
+        fn set_(&mut self, i: usize, v: bool) -> Result<(), ()> {
+            self.set(i, v).map_err(|_| ())
+        }
+        fn shift_(&mut self, n: usize) -> Result<(), ()> {
+            self.shift_up(n).map_err(|_| ())
+        }
+        fn diffi_(&mut self, o: &Self) {
+            self.difference_inplace(o)
+        }
+        fn diff_(&self, o: &Self) -> Self {
+            self.difference(o)
+        }
+        fn into_bytes_(self) -> Vec<u8> {
+            self.into_bytes().to_vec()
+        }
+        fn observe(&self) -> (usize, String, usize, Option<usize>, bool, Vec<u8>) {
+            (
+                self.len(),
+                bits_model(self.iter()),
+                self.num_set_bits(),
+                self.highest_set_bit(),
+                self.is_zero(),
+                self.as_slice().to_vec(),
+            )
+        }
+    };
+}
+
+impl<N: Unsigned + Clone> Flav for BitList<N> {
+    fn name() -> String {
+        format!("list:{}", N::to_usize())
+    }
+    fn new_(n: usize) -> Result<Self, ()> {
+        Self::with_capacity(n).map_err(|_| ())
+    }
+    fn union_(&self, o: &Self) -> Result<Self, ()> {
+        Ok(self.union(o))
+    }
+    fn inter_(&self, o: &Self) -> Result<Self, ()> {
+        Ok(self.intersection(o))
+    }
+    fn subset_(&self, o: &Self) -> bool {
+        self.is_subset(o)
+    }
+    fn from_bytes_(b: &[u8]) -> Result<Self, ()> {
+        Self::from_bytes(SmallVec::from_slice(b)).map_err(|_| ())
+    }
+    common_flav!();
+}
+impl<N: Unsigned + Clone> Flav for BitVector<N> {
+    fn name() -> String {
+        format!("vec:{}", N::to_usize())
+    }
+    fn new_(_n: usize) -> Result<Self, ()> {
+        Ok(Self::new())
+    }
+    fn union_(&self, o: &Self) -> Result<Self, ()> {
+        Ok(self.union(o))
+    }
+    fn inter_(&self, o: &Self) -> Result<Self, ()> {
+        Ok(self.intersection(o))
+    }
+    fn subset_(&self, o: &Self) -> bool {
+        self.is_subset(o)
+    }
+    fn from_bytes_(b: &[u8]) -> Result<Self, ()> {
+        Self::from_bytes(SmallVec::from_slice(b)).map_err(|_| ())
+    }
+    common_flav!();
+}
+impl Flav for BitVectorDynamic {
+    fn name() -> String {
+        "dyn".into()
+    }
+    fn new_(n: usize) -> Result<Self, ()> {
+        Self::new(n).map_err(|_| ())
+    }
+    fn union_(&self, o: &Self) -> Result<Self, ()> {
+        self.union(o).map_err(|_| ())
+    }
+    fn inter_(&self, o: &Self) -> Result<Self, ()> {
+        self.intersection(o).map_err(|_| ())
+    }
+    fn subset_(&self, o: &Self) -> bool {
+        self.difference(o).is_zero()
+    }
+    fn from_bytes_(b: &[u8]) -> Result<Self, ()> {
+        Self::from_bytes_with_len(SmallVec::from_slice(b), b.len() * 8).map_err(|_| ())
+    }
+    common_flav!();
+}
+
+#[derive(Clone, Debug)]
+pub enum Op {
+    New(usize, usize),
+    Set(usize, usize, bool),
+    Shift(usize, usize),
+    DiffI(usize, usize),
+    Clone(usize, usize),
+    Dec(usize, Vec<u8>),
+    Union(usize, usize, usize),
+    Inter(usize, usize, usize),
+    Diff(usize, usize, usize),
+    Subset(usize, usize, usize),
+}
+
+fn op_str(o: &Op) -> String {
+    match o {
+        Op::New(r, n) => format!("new {} {}", r, n),
+        Op::Set(r, i, v) => format!("set {} {} {}", r, i, *v as u8),
+        Op::Shift(r, n) => format!("shift {} {}", r, n),
+        Op::DiffI(r, s) => format!("diffi {} {}", r, s),
+        Op::Clone(r, s) => format!("clone {} {}", r, s),
+        Op::Dec(r, b) => format!("dec {} {}", r, hex(b)),
+        Op::Union(r, a, b) => format!("union {} {} {}", r, a, b),
+        Op::Inter(r, a, b) => format!("inter {} {} {}", r, a, b),
+        Op::Diff(r, a, b) => format!("diff {} {} {}", r, a, b),
+        Op::Subset(r, a, b) => format!("subset {} {} {}", r, a, b),
+    }
+}
+fn target(o: &Op) -> usize {
+    match o {
+        Op::New(r, _)
+        | Op::Set(r, _, _)
+        | Op::Shift(r, _)
+        | Op::DiffI(r, _)
+        | Op::Clone(r, _)
+        | Op::Dec(r, _)
+        | Op::Union(r, _, _)
+        | Op::Inter(r, _, _)
+        | Op::Diff(r, _, _)
+        | Op::Subset(r, _, _) => *r,
+    }
+}
+
+fn observe_reg<F: Flav>(regs: &[Option<F>; 4], r: usize, status: u8, sub: Option<bool>) -> String {
+    let subs = match sub {
+        None => "-".to_string(),
+        Some(b) => (b as u8).to_string(),
+    };
+    match &regs[r % 4] {
+        None => format!("{}|0|0|(bits)|0|-|0|-|-|-|-|{}", status, subs),
+        Some(b) => {
+            let (len, bits, nsb, hsb, zero, slice) = b.observe();
+            let ssz = b.as_ssz_bytes();
+            let eq: String = regs
+                .iter()
+                .map(|x| match x {
+                    Some(c) => {
+                        if b == c {
+                            '1'
+                        } else {
+                            '0'
+                        }
+                    }
+                    None => '0',
+                })
+                .collect();
+            let mut rec = Recorder::default();
+            b.hash(&mut rec);
+            let hash = rec.0.iter().map(|x| x.to_string()).collect::<Vec<_>>().join(",");
+            format!(
+                "{}|1|{}|{}|{}|{}|{}|{}|{}|{}|{}|{}",
+                status,
+                len,
+                bits,
+                nsb,
+                hsb.map(|h| h.to_string()).unwrap_or_else(|| "-".into()),
+                zero as u8,
+                hex(&slice),
+                hex(&ssz),
+                eq,
+                hash,
+                subs
+            )
+        }
+    }
+}
+
+fn step<F: Flav>(regs: &mut [Option<F>; 4], o: &Op) -> (u8, Option<bool>) {
+    fn put<F: Flav>(regs: &mut [Option<F>; 4], r: usize, res: Caught<Result<F, ()>>) -> (u8, Option<bool>) {
+        match res {
+            Caught::Val(Ok(b)) => {
+                regs[r % 4] = Some(b);
+                (0, None)
+            }
+            Caught::Val(Err(_)) => (1, None),
+            Caught::Panic => (2, None),
+        }
+    }
+    match o {
+        Op::New(r, n) => {
+            let res = catch(|| F::new_(*n));
+            put(regs, *r, res)
+        }
+        Op::Set(r, i, v) => match regs[*r % 4].clone() {
+            Some(mut b) => {
+                let res = catch(|| b.set_(*i, *v).map(|_| b));
+                put(regs, *r, res)
+            }
+            None => (1, None),
+        },
+        Op::Shift(r, n) => match regs[*r % 4].clone() {
+            Some(mut b) => {
+                // a failed shift must leave the value unchanged: keep the mutated copy only on Ok
+                let res = catch(|| b.shift_(*n).map(|_| b));
+                put(regs, *r, res)
+            }
+            None => (1, None),
+        },
+        Op::DiffI(r, s) => match (regs[*r % 4].clone(), regs[*s % 4].clone()) {
+            (Some(mut a), Some(c)) => {
+                let res = catch(|| {
+                    a.diffi_(&c);
+                    Ok(a)
+                });
+                put(regs, *r, res)
+            }
+            _ => (1, None),
+        },
+        Op::Clone(r, s) => match regs[*s % 4].clone() {
+            Some(b) => {
+                regs[*r % 4] = Some(b);
+                (0, None)
+            }
+            None => (1, None),
+        },
+        Op::Dec(r, bytes) => {
+            let res = catch(|| F::from_ssz_bytes(bytes).map_err(|_| ()));
+            put(regs, *r, res)
+        }
+        Op::Union(r, a, b) => match (regs[*a % 4].clone(), regs[*b % 4].clone()) {
+            (Some(x), Some(y)) => {
+                let res = catch(|| x.union_(&y));
+                put(regs, *r, res)
+            }
+            _ => (1, None),
+        },
+        Op::Inter(r, a, b) => match (regs[*a % 4].clone(), regs[*b % 4].clone()) {
+            (Some(x), Some(y)) => {
+                let res = catch(|| x.inter_(&y));
+                put(regs, *r, res)
+            }
+            _ => (1, None),
+        },
+        Op::Diff(r, a, b) => match (regs[*a % 4].clone(), regs[*b % 4].clone()) {
+            (Some(x), Some(y)) => {
+                let res = catch(|| Ok(x.diff_(&y)));
+                put(regs, *r, res)
+            }
+            _ => (1, None),
+        },
+        Op::Subset(_r, a, b) => match (regs[*a % 4].clone(), regs[*b % 4].clone()) {
+            (Some(x), Some(y)) => match catch(|| x.subset_(&y)) {
+                Caught::Val(s) => (0, Some(s)),
+                Caught::Panic => (2, None),
+            },
+            _ => (1, None),
+        },
+    }
+}
+
+/// A failed set/shift in the Rust API mutates in place; the check that the value is unchanged
+/// after a failure is done by applying the operation to the register itself here.
+fn step_inplace<F: Flav>(regs: &mut [Option<F>; 4], o: &Op) -> (u8, Option<bool>) {
+    match o {
+        Op::Set(r, i, v) => match regs[*r % 4].as_mut() {
+            Some(b) => match b.set_(*i, *v) {
+                Ok(()) => (0, None),
+                Err(()) => (1, None),
+            },
+            None => (1, None),
+        },
+        Op::Shift(r, n) => match regs[*r % 4].as_mut() {
+            Some(b) => match b.shift_(*n) {
+                Ok(()) => (0, None),
+                Err(()) => (1, None),
+            },
+            None => (1, None),
+        },
+        _ => step(regs, o),
+    }
+}
+
+pub fn run_history<F: Flav>(ctx: &mut Ctx, ops: &[Op]) {
+    let mut regs: [Option<F>; 4] = [None, None, None, None];
+    let mut obs = vec![];
+    for o in ops {
+        let (st, sub) = step_inplace(&mut regs, o);
+        obs.push(observe_reg(&regs, target(o), st, sub));
+    }
+    let l = format!(
+        "bfhist\t{}\t{}\t{}",
+        F::name(),
+        ops.iter().map(op_str).collect::<Vec<_>>().join(";"),
+        obs.join(";")
+    );
+    ctx.line(&l);
+}
+
+fn gen_index(r: &mut Rng, cap: usize) -> usize {
+    match r.below(10) {
+        0 => 0,
+        1 => cap,
+        2 => cap.saturating_sub(1),
+        3 => cap + 1,
+        4 => 8 * (cap / 8),
+        5 => (8 * (cap / 8)).saturating_sub(1),
+        6 => *r.pick(&[usize::MAX, 1 << 32, 1 << 63, 7, 8, 9]),
+        _ => r.below(cap + 2),
+    }
+}
+
+fn gen_bf_bytes(r: &mut Rng, cap: usize) -> Vec<u8> {
+    let nbytes = match r.below(6) {
+        0 => 0,
+        1 => cap / 8 + 1,
+        2 => std::cmp::max(1, (cap + 7) / 8),
+        3 => cap / 8 + 2,
+        _ => r.below(cap / 8 + 3),
+    };
+    let mut b = match r.below(4) {
+        0 => vec![0u8; nbytes],
+        1 => vec![255u8; nbytes],
+        _ => r.bytes(nbytes),
+    };
+    if let Some(l) = b.last_mut() {
+        match r.below(4) {
+            0 => *l = 1,
+            1 => *l &= (1u16 << (cap % 8 + 1)).wrapping_sub(1) as u8,
+            2 => *l = 1 << r.below(8),
+            _ => {}
+        }
+    }
+    b
+}
+
+pub fn gen_history(r: &mut Rng, cap: usize, dynamic: bool, len: usize) -> Vec<Op> {
+    let mut ops = vec![];
+    let n_ops = 1 + r.below(len);
+    for k in 0..n_ops {
+        let reg = r.below(4);
+        let o = match if k < 2 { r.below(3) } else { r.below(16) } {
+            0 | 1 => {
+                let n = if dynamic {
+                    *r.pick(&[8usize, 16, 24, 64, 72, 0, 7, 9, 128, 1032])
+                } else {
+                    gen_index(r, cap).min(1 << 20)
+                };
+                Op::New(reg, n)
+            }
+            2 => Op::Dec(reg, gen_bf_bytes(r, if dynamic { 24 } else { cap })),
+            3..=6 => Op::Set(reg, gen_index(r, if dynamic { 24 } else { cap }), r.chance(2, 3)),
+            7 | 8 => Op::Shift(reg, gen_index(r, if dynamic { 24 } else { cap })),
+            9 => Op::DiffI(reg, r.below(4)),
+            10 => Op::Clone(reg, r.below(4)),
+            11 => Op::Union(reg, r.below(4), r.below(4)),
+            12 => Op::Inter(reg, r.below(4), r.below(4)),
+            13 => Op::Diff(reg, r.below(4), r.below(4)),
+            14 => Op::Subset(reg, r.below(4), r.below(4)),
+            _ => Op::Dec(reg, gen_bf_bytes(r, if dynamic { 24 } else { cap })),
+        };
+        ops.push(o);
+    }
+    ops
+}
+
+/// Operand pairs for the set operations (C12): operands enter through their SSZ encoding.
+pub fn gen_pair_history<F: Flav>(r: &mut Rng, la: usize, lb: usize) -> Option<Vec<Op>> {
+    let mk = |l: usize, r: &mut Rng| -> Option<Vec<u8>> {
+        let mut x = F::new_(l).ok()?;
+        let (len, _, _, _, _, _) = x.observe();
+        let mode = r.below(4);
+        for i in 0..len {
+            let v = match mode {
+                0 => false,
+                1 => true,
+                _ => r.chance(1, 2),
+            };
+            if v {
+                x.set_(i, true).ok()?;
+            }
+        }
+        Some(x.as_ssz_bytes())
+    };
+    let a = mk(la, r)?;
+    let b = mk(lb, r)?;
+    Some(vec![
+        Op::Dec(0, a),
+        Op::Dec(1, b),
+        Op::Union(2, 0, 1),
+        Op::Inter(2, 0, 1),
+        Op::Diff(2, 0, 1),
+        Op::Diff(3, 1, 0),
+        Op::Subset(2, 0, 1),
+        Op::Subset(2, 1, 0),
+        Op::Union(3, 1, 0),
+        Op::Inter(3, 1, 0),
+    ])
+}
+
+/// byte-level API vs SSZ codec on one byte string (C14)
+fn bytes_case<F: Flav>(ctx: &mut Ctx, b: &[u8]) {
+    let show = |r: Caught<Result<F, ()>>| match r {
+        Caught::Val(Ok(x)) => {
+            let bits = x.observe().1;
+            let back = x.clone().into_bytes_();
+            let ssz = x.as_ssz_bytes();
+            format!("ok {} {} {}", bits, hex(&back), hex(&ssz))
+        }
+        Caught::Val(Err(_)) => "err".to_string(),
+        Caught::Panic => "panic".to_string(),
+    };
+    let via_bytes = show(catch(|| F::from_bytes_(b)));
+    let via_ssz = show(catch(|| F::from_ssz_bytes(b).map_err(|_| ())));
+    ctx.line(&format!("bfbytes\t{}\t{}\t{}\t{}", F::name(), hex(b), via_bytes, via_ssz));
+}
+
+fn resize_case<N: Unsigned + Clone, M: Unsigned + Clone>(ctx: &mut Ctx, r: &mut Rng) {
+    let cap = N::to_usize();
+    let len = r.below(cap + 1);
+    let mut b = BitList::<N>::with_capacity(len).unwrap();
+    for i in 0..len {
+        if r.chance(1, 2) {
+            b.set(i, true).unwrap();
+        }
+    }
+    let res = match catch(|| b.resize::<M>()) {
+        Caught::Val(Ok(x)) => format!("ok {}", bits_model(x.iter())),
+        Caught::Val(Err(_)) => "err".into(),
+        Caught::Panic => "panic".into(),
+    };
+    ctx.line(&format!(
+        "bfresize\t{}\t{}\t{}\t{}",
+        cap,
+        M::to_usize(),
+        bits_model(b.iter()),
+        res
+    ));
+}
+
+fn withlen_case(ctx: &mut Ctx, b: &[u8], l: usize) {
+    let res = match catch(|| BitVectorDynamic::from_bytes_with_len(SmallVec::from_slice(b), l)) {
+        Caught::Val(Ok(x)) => format!("ok {}", bits_model(x.iter())),
+        Caught::Val(Err(_)) => "err".into(),
+        Caught::Panic => "panic".into(),
+    };
+    ctx.line(&format!("bfwithlen\t{}\t{}\t{}", hex(b), l, res));
+}
+
+/// serde form (C18)
+fn serde_value<F: Flav + serde::Serialize + serde::de::DeserializeOwned>(ctx: &mut Ctx, x: &F) {
+    let ssz = x.as_ssz_bytes();
+    let json = serde_json::to_string(x).unwrap_or_else(|_| "SERFAIL".into());
+    let back = match serde_json::from_str::<F>(&json) {
+        Ok(y) => {
+            if y == *x {
+                "same"
+            } else {
+                "different"
+            }
+        }
+        Err(_) => "err",
+    };
+    ctx.line(&format!("serde_ser\t{}\t{}\t{}\t{}", F::name(), hex(&ssz), json, back));
+}
+fn serde_string<F: Flav + serde::Serialize + serde::de::DeserializeOwned>(ctx: &mut Ctx, s: &str) {
+    // through JSON, and through serde's plain string deserializer (no JSON layer)
+    let quoted = serde_json::to_string(s).unwrap();
+    let show = |r: Result<F, ()>| match r {
+        Ok(x) => format!("ok {}", x.observe().1),
+        Err(_) => "err".to_string(),
+    };
+    let via_json = match catch(|| serde_json::from_str::<F>(&quoted).map_err(|_| ())) {
+        Caught::Val(r) => show(r),
+        Caught::Panic => "panic".into(),
+    };
+    let via_str = match catch(|| {
+        use serde::de::IntoDeserializer;
+        let d: serde::de::value::StrDeserializer<serde::de::value::Error> = s.into_deserializer();
+        F::deserialize(d).map_err(|_| ())
+    }) {
+        Caught::Val(r) => show(r),
+        Caught::Panic => "panic".into(),
+    };
+    // the harness only emits strings without tabs / newlines
+    ctx.line(&format!("serde_de\t{}\t{}\t{}\t{}", F::name(), s, via_json, via_str));
+}
+
+fn gen_hex_string(r: &mut Rng, valid_ssz: &[u8]) -> String {
+    let h: String = valid_ssz.iter().map(|b| format!("{:02x}", b)).collect();
+    match r.below(12) {
+        0 => format!("0x{}", h),
+        1 => format!("0x{}", h.to_uppercase()),
+        2 => h,
+        3 => format!("0X{}", h),
+        4 => format!("0x{}0", h),
+        5 => {
+            let mut s = format!("0x{}", h);
+            if s.len() > 2 {
+                let p = 2 + r.below(s.len() - 2);
+                s.replace_range(p..p + 1, "g");
+            }
+            s
+        }
+        6 => "0x".into(),
+        7 => "".into(),
+        8 => format!("0x{}ff", h),
+        9 => format!(" 0x{}", h),
+        10 => {
+            let n = r.below(5);
+            let alphabet = ['0', 'x', 'X', '1', 'a', 'F', 'g'];
+            (0..n).map(|_| *r.pick(&alphabet)).collect()
+        }
+        _ => {
+            let k = r.below(4);
+            let b = r.bytes(k);
+            format!("0x{}", b.iter().map(|x| format!("{:02x}", x)).collect::<String>())
+        }
+    }
+}
+
+/// arbitrary (C20)
+fn arbitrary_case<F>(ctx: &mut Ctx, data: &[u8])
+where
+    F: Flav + for<'a> arbitrary::Arbitrary<'a>,
+{
+    let res = match catch(|| {
+        let mut u = arbitrary::Unstructured::new(data);
+        F::arbitrary(&mut u).map_err(|_| ())
+    }) {
+        Caught::Val(Ok(x)) => {
+            let rt = match F::from_ssz_bytes(&x.as_ssz_bytes()) {
+                Ok(y) => {
+                    if y == x {
+                        "rt"
+                    } else {
+                        "nort"
+                    }
+                }
+                Err(_) => "nort",
+            };
+            format!("ok {} {}", x.observe().1, rt)
+        }
+        Caught::Val(Err(_)) => "err".into(),
+        Caught::Panic => "panic".into(),
+    };
+    ctx.line(&format!("arb\t{}\t{}\t{}", F::name(), hex(data), res));
+}
+
+fn per_flavour<F>(ctx: &mut Ctx, cap: usize, dynamic: bool, count: usize)
+where
+    F: Flav + serde::Serialize + serde::de::DeserializeOwned,
+{
+    if ctx.has("bfhist") {
+        // the model machines are quadratic in the bit length: fewer and shorter histories at 1024
+        let (hist_count, hist_len) = if cap >= 256 { (std::cmp::max(2, count / 16), 8) } else { (count, 40) };
+        for _ in 0..hist_count {
+            let mut r = ctx.rng.clone();
+            let ops = gen_history(&mut r, cap, dynamic, hist_len);
+            ctx.rng = r;
+            run_history::<F>(ctx, &ops);
+        }
+    }
+    if ctx.has("bfpairs") {
+        let lens: Vec<usize> = if dynamic {
+            vec![8, 16, 24, 64, 72]
+        } else {
+            let mut v: Vec<usize> = (0..=std::cmp::min(cap, 17)).collect();
+            for l in [31usize, 32, 33, 63, 64, 65, 66, 1023, 1024] {
+                if l <= cap {
+                    v.push(l);
+                }
+            }
+            v
+        };
+        let reps = if cap >= 256 { 1 } else { std::cmp::max(1, count / (lens.len() * lens.len())) };
+        let lens: Vec<usize> = if cap >= 256 { lens.into_iter().filter(|l| *l <= 9 || *l >= 1023 || *l == 64).collect() } else { lens };
+        for &la in &lens {
+            for &lb in &lens {
+                for _ in 0..reps {
+                    let mut r = ctx.rng.clone();
+                    let ops = gen_pair_history::<F>(&mut r, la, lb);
+                    ctx.rng = r;
+                    if let Some(ops) = ops {
+                        run_history::<F>(ctx, &ops);
+                    }
+                }
+            }
+        }
+    }
+    if ctx.has("bfbytes") {
+        bytes_case::<F>(ctx, &[]);
+        for a in 0..=255u8 {
+            bytes_case::<F>(ctx, &[a]);
+        }
+        if ctx.exhaustive >= 2 {
+            for a in 0..=255u8 {
+                for b in 0..=255u8 {
+                    bytes_case::<F>(ctx, &[a, b]);
+                }
+            }
+        }
+        for _ in 0..count {
+            let mut r = ctx.rng.clone();
+            let b = if r.chance(1, 8) {
+                // around the 128-byte SmallVec spill
+                let n = 126 + r.below(6);
+                let mut v = r.bytes(n);
+                if let Some(l) = v.last_mut() {
+                    *l = 1;
+                }
+                v
+            } else {
+                gen_bf_bytes(&mut r, if dynamic { 24 } else { cap })
+            };
+            ctx.rng = r;
+            bytes_case::<F>(ctx, &b);
+        }
+    }
+    if ctx.has("serde") {
+        for _ in 0..count {
+            let mut r = ctx.rng.clone();
+            let b = gen_bf_bytes(&mut r, if dynamic { 24 } else { cap });
+            let s = gen_hex_string(&mut r, &b);
+            ctx.rng = r;
+            if let Ok(x) = F::from_ssz_bytes(&b) {
+                serde_value::<F>(ctx, &x);
+            }
+            serde_string::<F>(ctx, &s);
+        }
+    }
+}
+
+macro_rules! for_caps {
+    ($f:ident, $ctx:expr, $count:expr) => {{
+        $f::<typenum::U0>($ctx, $count);
+        $f::<typenum::U1>($ctx, $count);
+        $f::<typenum::U2>($ctx, $count);
+        $f::<typenum::U7>($ctx, $count);
+        $f::<typenum::U8>($ctx, $count);
+        $f::<typenum::U9>($ctx, $count);
+        $f::<typenum::U15>($ctx, $count);
+        $f::<typenum::U16>($ctx, $count);
+        $f::<typenum::U17>($ctx, $count);
+        $f::<typenum::U31>($ctx, $count);
+        $f::<typenum::U32>($ctx, $count);
+        $f::<typenum::U33>($ctx, $count);
+        $f::<typenum::U64>($ctx, $count);
+        $f::<typenum::U65>($ctx, $count);
+        $f::<typenum::U1024>($ctx, $count);
+    }};
+}
+
+fn cap_list<N: Unsigned + Clone>(ctx: &mut Ctx, count: usize) {
+    if ctx.wants(&BitList::<N>::name(), "bitfield") {
+        per_flavour::<BitList<N>>(ctx, N::to_usize(), false, count);
+        arb_flavour::<BitList<N>>(ctx, count);
+    }
+}
+fn cap_vec<N: Unsigned + Clone>(ctx: &mut Ctx, count: usize) {
+    if ctx.wants(&BitVector::<N>::name(), "bitfield") {
+        per_flavour::<BitVector<N>>(ctx, N::to_usize(), false, count);
+        arb_flavour::<BitVector<N>>(ctx, count);
+    }
+}
+
+fn arb_flavour<F>(ctx: &mut Ctx, count: usize)
+where
+    F: Flav + for<'a> arbitrary::Arbitrary<'a>,
+{
+    if !ctx.has("arb") {
+        return;
+    }
+    arbitrary_case::<F>(ctx, &[]);
+    arbitrary_case::<F>(ctx, &[0; 16]);
+    arbitrary_case::<F>(ctx, &[255; 16]);
+    arbitrary_case::<F>(ctx, &[1, 0, 0, 0, 0, 0, 0, 0, 1]);
+    for k in 0..9u8 {
+        arbitrary_case::<F>(ctx, &[k, 0, 0, 0, 0, 0, 0, 0, 1, 1, 1, 1, 1, 1, 1, 1, 1]);
+    }
+    for _ in 0..count {
+        let mut r = ctx.rng.clone();
+        let hi = if r.chance(1, 6) { 200 } else { 24 };
+        let n = r.below(hi);
+        let mut d = r.bytes(n);
+        if d.len() >= 8 && r.chance(2, 3) {
+            // a small size word, so that the bitlist generator gets past min(rand, N)
+            let w = (r.below(40) as u64).to_le_bytes();
+            d[..8].copy_from_slice(&w);
+            if r.chance(1, 2) {
+                for x in d[8..].iter_mut() {
+                    if r.chance(2, 3) {
+                        *x = 0;
+                    }
+                }
+                if let Some(l) = d.last_mut() {
+                    *l = 1;
+                }
+            }
+        }
+        ctx.rng = r;
+        arbitrary_case::<F>(ctx, &d);
+    }
+}
+
+pub fn run(ctx: &mut Ctx, args: &[String]) {
+    let wanted = ["bfhist", "bfpairs", "bfbytes", "serde", "arb", "bfresize", "bfwithlen"];
+    if !wanted.iter().any(|o| ctx.has(o)) {
+        return;
+    }
+    let mut count: usize = 200;
+    for i in 0..args.len() {
+        if args[i] == "--count" && i + 1 < args.len() {
+            count = args[i + 1].parse().unwrap_or(200);
+        }
+    }
+    let count = std::cmp::max(1, count / 4);
+    for_caps!(cap_list, ctx, count);
+    for_caps!(cap_vec, ctx, count);
+    if ctx.wants("dyn", "bitfield") {
+        per_flavour::<BitVectorDynamic>(ctx, 24, true, count);
+    }
+    if ctx.has("bfresize") && ctx.shard.0 == 0 {
+        for _ in 0..std::cmp::max(1, count / 4) {
+            let mut r = ctx.rng.clone();
+            resize_case::<typenum::U8, typenum::U16>(ctx, &mut r);
+            resize_case::<typenum::U16, typenum::U8>(ctx, &mut r);
+            resize_case::<typenum::U9, typenum::U9>(ctx, &mut r);
+            resize_case::<typenum::U0, typenum::U7>(ctx, &mut r);
+            resize_case::<typenum::U7, typenum::U0>(ctx, &mut r);
+            resize_case::<typenum::U1, typenum::U65>(ctx, &mut r);
+            resize_case::<typenum::U33, typenum::U1024>(ctx, &mut r);
+            resize_case::<typenum::U65, typenum::U64>(ctx, &mut r);
+            ctx.rng = r;
+        }
+    }
+    if ctx.has("bfwithlen") && ctx.shard.0 == 0 {
+        for _ in 0..count {
+            let mut r = ctx.rng.clone();
+            let b = gen_bf_bytes(&mut r, 24);
+            let l = match r.below(6) {
+                0 => b.len() * 8,
+                1 => (b.len() * 8).saturating_sub(1),
+                2 => b.len() * 8 + 8,
+                3 => 0,
+                4 => b.len(),
+                _ => r.below(64),
+            };
+            ctx.rng = r;
+            withlen_case(ctx, &b, l);
+        }
+    }
+}
